@@ -223,7 +223,7 @@ func (c *c07) runReader(ctx *RunCtx) *RunResult {
 	}
 	nops := t.Range(1, 300)
 	d := &c07readerDesc{Size: size, Salt: salt}
-	simrt.Reset(1, nil, 1)
+	simrt.Reset(1, soloPlan(t, treeSpawnsCached(c.env), 20000), 1)
 	simrt.Solo()
 	simrt.OpStart(4000000)
 	evh := mix(uint64(size), salt)
@@ -521,7 +521,7 @@ func (c *c07) runEngine(ctx *RunCtx) *RunResult {
 	if err := os.WriteFile(path, content, 0644); err != nil {
 		panic(err)
 	}
-	simrt.Reset(1, nil, uint64(t.Draw(1<<20)))
+	simrt.Reset(1, soloPlan(t, treeSpawnsCached(c.env), 200000), uint64(t.Draw(1<<20)))
 	simrt.Solo()
 	rand.Seed(5)
 	fs, ms, ok := c.compare(ctx, res, c.progs[pi], it.Src, path, content, 6000000)
